@@ -62,6 +62,51 @@ Theorem C40_noresult_sends_nothing : forall qid mask tl2 e err body,
 Proof. exact prepare_response_noresult. Qed.
 Print Assumptions C40_noresult_sends_nothing.
 
+(** Longpoll answers.  A SyncHandler may park a request (StartLongpoll) and answer later through a FRESH handler
+    context (FinishLongpoll / SendEmptyResponse); only the struct handlerContextFields survives in between
+    ([start_longpoll] = toLongpollContext, [finish_longpoll] = finishLongpoll2).  The restored context is the one a
+    direct answer would use -- in particular its requestExtraFieldsmask is the flags word of the request -- so a
+    longpoll answer is byte for byte the direct answer, and the client receives the response extra restricted
+    to what its request asked for (result and error answers, both body formats). *)
+Theorem C40_longpoll_preserves_request_mask : forall q,
+  let '(qid, l) := start_longpoll (hctx_of_request q) in
+  finish_longpoll qid l = hctx_of_request q /\
+  hf_mask (h_fields (finish_longpoll qid l)) = rq_flags (q_extra q).
+Proof. exact longpoll_preserves_request_mask. Qed.
+Print Assumptions C40_longpoll_preserves_request_mask.
+
+Theorem C40_longpoll_answer_is_direct_answer : forall q e err body,
+  respond_longpoll q e err body = prepare_response (q_id q) (rq_flags (q_extra q)) (q_tl2 q) e err body.
+Proof. exact respond_longpoll_eq. Qed.
+Print Assumptions C40_longpoll_answer_is_direct_answer.
+
+Theorem C40_longpoll_response_roundtrip : forall qid actor re tl2 rbody tag rw e body w,
+  u64 qid -> u64 actor -> req_extra_ok re -> body_starts rbody tag -> ~ is_wrapper_tag tag ->
+  prepare_request qid actor re tl2 rbody = Some rw ->
+  resp_extra_ok e ->
+  (tl2 = false -> exists t, body_starts body t /\ ~ is_resp_special t) ->
+  match parse_request rw with
+  | Ok q => respond_longpoll q e None body = PWire w ->
+            parse_response tl2 w = Ok {| a_id := qid; a_extra := norm_resp (N.land (rs_flags e) (rq_flags re)) e;
+                                         a_out := OBody body |}
+  | _ => False
+  end.
+Proof. exact longpoll_response_roundtrip. Qed.
+Print Assumptions C40_longpoll_response_roundtrip.
+
+Theorem C40_longpoll_error_roundtrip : forall qid actor re tl2 rbody tag rw e code desc body w,
+  u64 qid -> u64 actor -> req_extra_ok re -> body_starts rbody tag -> ~ is_wrapper_tag tag ->
+  prepare_request qid actor re tl2 rbody = Some rw ->
+  resp_extra_ok e -> u32 code -> str_ok desc ->
+  match parse_request rw with
+  | Ok q => respond_longpoll q e (Some (code, desc)) body = PWire w ->
+            parse_response tl2 w = Ok {| a_id := qid; a_extra := norm_resp (N.land (rs_flags e) (rq_flags re)) e;
+                                         a_out := OError (if code =? 0 then unknown_code else code) desc [] |}
+  | _ => False
+  end.
+Proof. exact longpoll_error_roundtrip. Qed.
+Print Assumptions C40_longpoll_error_roundtrip.
+
 (** A map written in key order is read back as the same map. *)
 Theorem C40_map_canonical : forall (V : Type) (m : list (bytes * V)),
   Sorted.StronglySorted key_lt m -> dict_of m = m.
@@ -117,3 +162,30 @@ Proof.
   - exists [9]. reflexivity.
   - unfold is_wrapper_tag. vm_compute. intros [H|[H|[H|H]]]; discriminate.
 Qed.
+
+(* a request that asks for binlog_pos and view_number (bits 0, 27) in TL2 format, parked and answered later:
+   the client gets exactly these two of the three extras the handler set *)
+Example C40_ex_longpoll :
+  match prepare_request 77 0 {| rq_flags := 2 ^ 0 + 2 ^ 27; rq_requester_id := 0; rq_wait_shards := [];
+     rq_wait_binlog_pos := 0; rq_string_forward_keys := []; rq_int_forward_keys := []; rq_string_forward := [];
+     rq_int_forward := 0; rq_custom_timeout_ms := 0; rq_supported_compression := 0; rq_random_delay := 0;
+     rq_persistent := persistent0; rq_trace := trace0; rq_exec_ctx := [] |} true [1; 2; 3; 4] with
+  | Some rw =>
+    match parse_request rw with
+    | Ok q =>
+      match respond_longpoll q {| rs_flags := 2 ^ 0 + 2 ^ 1 + 2 ^ 27; rs_binlog_pos := 10; rs_binlog_time := 11;
+               rs_engine_pid := pid0; rs_request_size := 0; rs_response_size := 0; rs_failed_subqueries := 0;
+               rs_compression_version := 0; rs_stats := []; rs_shards_binlog_pos := []; rs_epoch_number := 7;
+               rs_view_number := 9 |} None [5; 6] with
+      | PWire w => match parse_response true w with
+                   | Ok a => rs_flags (a_extra a) = 2 ^ 0 + 2 ^ 27 /\ rs_binlog_pos (a_extra a) = 10 /\
+                             rs_binlog_time (a_extra a) = 0 /\ rs_view_number (a_extra a) = 9 /\ a_out a = OBody [5; 6]
+                   | _ => False
+                   end
+      | _ => False
+      end
+    | _ => False
+    end
+  | None => False
+  end.
+Proof. vm_compute. repeat split; reflexivity. Qed.
